@@ -18,7 +18,8 @@ LEVEL_TEXT = ('The complete documented form tables of the NMOS 6502 (151 opcodes
               'every distance around both limits, page-relative 4004 jumps at the start, middle and last bytes of a ROM page, and illegal '
               'mode/register combinations adjacent to legal ones; every form is assembled and compared byte for byte, every out-of-range form '
               'must be rejected with an error naming its line.'
-              ' MSP430 RLA/RLC in every destination mode and the AVR reduced core (16-bit LDS/STS) were added to the tables.')
+              ' MSP430 RLA/RLC in every destination mode and the AVR reduced core (16-bit LDS/STS) were added to the tables.'
+              ' Added in the last round: AVR devices beyond 64K words; 6502 branches to labels at the limits; MSP430 RLA/RLC on absolute addresses and across the displacement sign change.')
 LEVEL_NOTE = ('Trusted: the tables in mc/isa.py (typed from the ISA references, cross-validated by agreement with the unchanged tree; every '
               'disagreement was triaged). Not covered: undocumented opcodes, Z180/Z380/eZ80, MSP430X extensions, AVR mega extensions.')
 RULE = 'one micro-case per instruction form; non-trivial = all'
